@@ -114,6 +114,27 @@ def run_item(it):
                                 ins_short[k] = ins_short[k].reshape(ins_short[k].shape[:-1])
                     else:
                         squeeze_out = 0 if base["outtoks"][0][:3] == ["[", "1", "]"] else -1
+                if p["opmap"] == "rearrange":
+                    # einx.rearrange = einx.id for EVERY description: also when an axis is named like a parameter that only
+                    # rearrange's signature has (it would capture the axis size); names are read off the live signatures
+                    import inspect
+                    import einx
+                    pid = set(inspect.signature(einx.id).parameters)
+                    extra = [n for n, q in inspect.signature(einx.rearrange).parameters.items()
+                             if n not in pid and q.kind in (q.KEYWORD_ONLY, q.POSITIONAL_OR_KEYWORD) and n != "description" and n.isidentifier()]
+                    first = next((t for t in p["short"] if t.isalpha()), None)
+                    for e in extra:
+                        if first is None:
+                            break
+                        toks2 = [e if t == first else t for t in p["short"]]
+                        L2 = dict(base["L"])
+                        L2[e] = L2[first]
+                        ka, ra = outcome(lambda: call("rearrange", toks2, [x.copy() for x in ins], backend, L2, {}))
+                        kb, rb = outcome(lambda: call("id", toks2, [x.copy() for x in ins], backend, L2, {}))
+                        calls += 2
+                        if ka != kb or (ka == "ok" and (len(ra) != len(rb) or not all(same(a, b) for a, b in zip(ra, rb)))):
+                            findings.append({"op": op, "backend": backend, "rule": "rearrange", "kind": "different-outcome",
+                                             "detail": "axis named %r: einx.rearrange(%r) -> %s but einx.id -> %s" % (e, "".join(toks2), ka, kb)})
                 k1, r1 = outcome(lambda: call(op_short, p["short"], ins_short, backend, base["L"], kw_short))
                 k2, r2 = outcome(lambda: call(op, p["long"], [x.copy() for x in ins], backend, base["L"], {}))
                 if squeeze_out is not None and k2 == "ok":
